@@ -87,3 +87,24 @@ func FlattenBound(s oracle.Seg, t float64) (bound float64, finding string) {
 	}
 	return 40 * t, "F03b"
 }
+
+// MinRadius returns the smallest radius of curvature along the curved segments (+Inf if there are none), from the
+// circle through three consecutive samples.
+func MinRadius(segs []oracle.Seg) float64 {
+	r := math.Inf(1)
+	for _, s := range segs {
+		if !s.Curved() {
+			continue
+		}
+		const n = 200
+		for i := 1; i < n; i++ {
+			p0, p1, p2 := s.Eval(float64(i-1)/n), s.Eval(float64(i)/n), s.Eval(float64(i+1)/n)
+			a, b, c := p0.Dist(p1), p1.Dist(p2), p0.Dist(p2)
+			area := math.Abs(p1.Sub(p0).Cross(p2.Sub(p0))) / 2
+			if area > 1e-14 {
+				r = math.Min(r, a*b*c/(4*area))
+			}
+		}
+	}
+	return r
+}
